@@ -9,7 +9,7 @@ for (b) and (c) the reported paths are also compared with the Lean model (`Paths
 `Props/C06.lean` proves the path clauses for every graph.
 
 Classification: a monitor failure is a failing input by itself.  It is counted under a recorded finding only when BOTH its failure
-class and a shape predicate on the input match the finding (known_findings.json, property C06: D2, D11, D26, D27); anything else is a
+class and a shape predicate on the input match the finding (known_findings.json, property C06: D2, D11, D32, D33); anything else is a
 VIOLATION with the SQL as replay.  impl != model with a clean monitor is a stale correspondence (`no-failing-input-found`).
 """
 import collections
@@ -64,7 +64,7 @@ def classify(f, sql_text, ast=None, d11_names=None, dialect=None):
     """finding id (property C06) a monitor failure belongs to, or None"""
     cls = f["class"]
     tabs = [_raw(t) for t in _tables_of(f)]
-    # D27: a table renamed after column lineage was recorded keeps its columns under the old name
+    # D33: a table renamed after column lineage was recorded keeps its columns under the old name
     if cls in (NOT_IN_LINEAGE, NOT_CONNECTED, LAST_NOT_TARGET, OWNER_EDGE):
         names = set()
         for m in RE_RENAME.finditer(sql_text):
@@ -72,12 +72,12 @@ def classify(f, sql_text, ast=None, d11_names=None, dialect=None):
                 if g:
                     names.add(_raw(g))
         if names and any(t in names for t in tabs):
-            return "D27"
-    # D26: a qualifier that names no table of the statement (LATERAL VIEW alias): `Table(qualifier)` fallback
+            return "D33"
+    # D32: a qualifier that names no table of the statement (LATERAL VIEW alias): `Table(qualifier)` fallback
     if cls == NOT_IN_LINEAGE:
         aliases = {m.group(1).lower() for m in RE_LATERAL.finditer(sql_text)}
         if aliases and any(t in aliases for t in tabs):
-            return "D26"
+            return "D32"
     # D1p: the sqlparse analyser still loses the relations after a comma that follows an explicit JOIN (D1, repaired for sqlfluff only)
     if cls in (NOT_IN_LINEAGE, NOT_CONNECTED) and dialect == "non-validating" and ast is not None and any(mixes_comma_and_join(s) for s in ast):
         return "D1p"
